@@ -560,6 +560,11 @@ def DeepCopyOK (s s' : State) : Prop :=
   ∃ g r r', cur s = some (g, r) ∧ s'.arr.grid = some s.heap.length ∧ s'.heap = s.heap ++ [r'] ∧
     r'.counts = r.counts ∧ ∀ q ∈ s.heap, q.store ≠ r'.store
 
+/-- witness state for the copy theorems: `(t: 3, n_face: 6)` on grid 0 -/
+def w0c : State :=
+  { heap := [⟨⟨8, 12, 6⟩, 0⟩, ⟨⟨12, 17, 6⟩, 1⟩],
+    arr := ⟨true, some 0, [(.other 0, 3), (.face, 6)]⟩ }
+
 theorem le_foldl_max (l : List Nat) (a : Nat) : a ≤ l.foldl max a ∧ ∀ x ∈ l, x ≤ l.foldl max a := by
   induction l generalizing a with
   | nil => simp
@@ -594,6 +599,35 @@ theorem deep_copy_independent {T : Table} {s s' : State} (hi : Inv s)
     ⟨rfl, s.heap.length, _, rfl, heap_append_last _ _, hd⟩⟩
   simp only [hgr, ne_eq, Option.some.injEq]
   omega
+
+/-- **Every deep way of copying** — `copy()`, `copy(deep=True)`, `copy(data=x)`, `copy(deep=True, data=x)`,
+    `copy.deepcopy` — at any point of a program (any state satisfying the invariant) yields an equal,
+    independent grid when `Grid.copy` allocates; `data=` plays no role. -/
+theorem copy_api_deep_independent {T : Table} {s s' : State} (api : CopyApi) (hd : api.deep = true)
+    (hi : Inv s) (h : step T s (Op.ofCopy api true) = some s') :
+    DeepCopyOK s s' ∧ s'.arr.grid ≠ s.arr.grid ∧ s'.arr.dims = s.arr.dims ∧ Inv s' := by
+  unfold Op.ofCopy at h
+  rw [hd] at h
+  exact deep_copy_independent hi h
+
+/-- the shallow ways — `copy(deep=False)`, `copy(deep=False, data=x)`, `copy.copy` — keep THE SAME grid -/
+theorem copy_api_shallow_same_grid {T : Table} {s s' : State} (api : CopyApi) (f : Bool)
+    (hd : api.deep = false) (hi : Inv s) (h : step T s (Op.ofCopy api f) = some s') :
+    s'.arr.grid = s.arr.grid ∧ s'.heap = s.heap ∧ Inv s' := by
+  unfold Op.ofCopy at h
+  rw [hd] at h
+  have hg : OpGood T (.copy false f) := ⟨rfl, fun k hk => by cases hk⟩
+  have := same_grid hg rfl hi h
+  exact ⟨this.1, this.2, step_preserves_inv hg hi h⟩
+
+theorem copy_api_deep_iff (api : CopyApi) :
+    api.deep = false ↔ api ∈ [CopyApi.deepFalse, .deepFalseData, .pyCopy] := by
+  cases api <;> simp [CopyApi.deep]
+
+/-- a "deep" copy that re-uses the original's grid OBJECT (what a `_copy` that looks at `data=` would do)
+    fails the step specification -/
+theorem deep_copy_same_object_violates_spec :
+    specB w0c (Op.ofCopy .deepTrueData true) w0c w0c.arr.dims = false := by decide
 
 /-- as the code stands `Grid.copy` hands the SAME `_ds` to the new `Grid` (grid/grid.py:1406-1413):
     the copy is a new object but not independent -/
@@ -1009,6 +1043,10 @@ example : ∃ s', step asIs w0 (.copy true true) = some s' ∧ specB w0 (.copy t
 example : ∃ s', step asIs w0 (.getDual true ⟨0, 0, 0⟩) = some s' ∧ Inv s' :=
   ⟨_, rfl, attachedB_iff.mp (by decide)⟩
 example : ∀ k, ((fun _ => Path.replace : Table) k).good = true := fun _ => rfl
+example : ∃ s', step asIs w0 (Op.ofCopy .data true) = some s' ∧ s'.arr.grid = some 2 ∧
+    specB w0 (Op.ofCopy .data true) s' w0.arr.dims = true := ⟨_, rfl, rfl, by decide⟩
+example : ∃ s', run asIs w0 [.elem .arith, .transpose [(.face, 6), (.other 0, 3)], Op.ofCopy .deepTrueData true]
+    = some s' ∧ s'.arr.grid = some 2 ∧ Inv s' := ⟨_, rfl, rfl, attachedB_iff.mp (by decide)⟩
 /-- element dimension FIRST: `(n_face: 6, t: 3)` sliced to a 2-face sub-grid is `(n_face: 2, t: 3)` -/
 example : (run asIs w0 [.transpose [(.face, 6), (.other 0, 3)], .gridIsel ⟨6, 7, 2⟩]).map (·.arr) =
     some ⟨true, some 2, [(.face, 2), (.other 0, 3)]⟩ := by decide
